@@ -7,7 +7,7 @@ from ..gen import J, JI
 from . import lincommon as lc
 
 PROP = "C08"
-HOSTILE = ('scale', 'mean')
+HOSTILE = ('scale', 'mean', 'special')
 MONITORS = ("WF", "DENS", "CACHE")
 ANCHORS = [("conditional.py", "ConditionalGaussianPDF.affine_marginal_transformation"),
            ("conditional.py", "ConditionalIdentityGaussianPDF.affine_marginal_transformation"),
